@@ -34,14 +34,18 @@ DEFECTS = ["short", "long", "gaps_u", "gaps_t", "month_t", "neg_gas", "poor", "v
 # first weekends of a season (default maps): the span ends on the Saturday (1 weekend day in the new season), the Sunday (2) or a week later (3-4)
 SEASON_WEEKENDS = ["2018-06-02", "2018-11-03", "2019-06-01", "2017-11-04"]  # first Saturdays of summer / winter
 SEASON_LAST_WEEKENDS = ["2018-02-24", "2018-09-29", "2019-02-23", "2017-09-30"]  # last Saturdays of winter / summer
-OTHER_TZ = {"America/Chicago": "Europe/London", "UTC": "America/Chicago"}
+# other zones per baseline zone: far away, same offset in winter only, same offset in summer only (never an alias of the same zone)
+OTHER_TZ = {"America/Chicago": ["Europe/London", "America/Regina", "America/Bogota", "UTC"],
+            "UTC": ["America/Chicago", "Europe/London", "Africa/Lagos"],
+            "Europe/Berlin": ["UTC", "Africa/Lagos", "Africa/Johannesburg", "Europe/London"],
+            "Australia/Sydney": ["UTC", "Australia/Brisbane", "Pacific/Noumea", "Asia/Tokyo"]}
 
 
 @st.composite
 def cases(draw, family=None):
     fam = family or draw(st.sampled_from(["daily", "daily", "billing", "hourly", "hourly"]))
     prof = {"daily": draw(st.sampled_from(["legacy", "legacy", "legacy", "legacy_dev_splits", "current"])) if family != "daily_current" else "current",
-            "billing": "billing", "hourly": draw(st.sampled_from(["hourly_default", "hourly_thresholds", "hourly_robust"]))}[fam if fam != "daily_current" else "daily"]
+            "billing": "billing", "hourly": draw(st.sampled_from(["hourly_default", "hourly_thresholds", "hourly_robust", "hourly_adaptive_thresholds", "hourly_adaptive"]))}[fam if fam != "daily_current" else "daily"]
     if fam == "daily_current":
         fam = "daily"
     b = draw(zoo.baseline(family=fam, profiles=[prof], tzs=["America/Chicago", "UTC", "Europe/Berlin", "Australia/Sydney"]))
@@ -59,6 +63,7 @@ def cases(draw, family=None):
     c["stored"] = draw(st.booleans())
     c["arg"] = draw(st.sampled_from(["own_reporting", "own_reporting", "own_baseline", "foreign", "other_tz", "unfitted"]))
     c["rep"] = draw(zoo.reporting(b))
+    c["other_tz_i"] = draw(st.integers(0, 3))
     return c
 
 
@@ -197,7 +202,9 @@ def judge(c, rec):
         elif arg == "own_baseline":
             rep = Base(df.copy(), is_electricity_data=b["electric"])
         elif arg == "other_tz":
-            other = OTHER_TZ.get(tz, "UTC")
+            others = OTHER_TZ.get(tz, ["UTC"])
+            other = others[c.get("other_tz_i", 0) % len(others)]
+            cls = cls + ["other_tz=%s->%s" % (tz, other)]
             rep = zoo.build_reporting(dict(b, tz=other), c["rep"])
         else:
             ofam = {"daily": "hourly", "billing": "daily", "hourly": "daily"}[fam]
